@@ -1,12 +1,339 @@
-(* C14 -- occlusion/mismatch filling touches only flagged pixels, fills from valid ones. *)
-From Coq Require Import List Bool ZArith QArith.
-From Pandora Require Import Model.CrossCheck Model.Interp Gen.ValConst.
+(* C14 -- occlusion/mismatch filling touches only flagged pixels, fills from valid ones.
+   Statements only; proofs are `exact <lemma>` from Proofs/InterpP.v.
+   [interp m nr nc off disp mask] is the model (Model/Interp.v) of
+   AbstractInterpolation(interpolated_disparity = m).interpolated_disparity of the tree under
+   test (the four numba kernels with the `fix:` commits cf902ea, 7f012f4, 2df98b7, e4c6aae in,
+   find_valid_neighbors, the final mask_border of mc-cnn); [interp_before] is the model of the
+   code as found.  Rows/columns: disp r c, mask r c, 0 <= r < nr, 0 <= c < nc; None = NaN.
+   The Spec (Spec/Interp.v) is relational and pixel-wise; all theorems hold for every size,
+   every map, every mask. *)
+From Coq Require Import List Bool ZArith QArith Qabs Lia.
+From Pandora Require Import Model.CrossCheck Spec.CrossCheck Proofs.CrossCheckP
+     Model.Interp Spec.Interp Proofs.InterpP Gen.ValConst Model.Mirror Gen.Callbacks.
 Import ListNotations.
+Open Scope Z_scope.
 
+(* Per-run obligations: the constants of the regenerated Gen/ValConst.v (pandora/constants.py)
+   are the ones the model and the proofs use ... *)
 Theorem C14_constants_match :
   [PANDORA_MSK_PIXEL_INVALID; PANDORA_MSK_PIXEL_LEFT_NODATA_OR_BORDER; PANDORA_MSK_PIXEL_OCCLUSION;
    PANDORA_MSK_PIXEL_MISMATCH; PANDORA_MSK_PIXEL_FILLED_OCCLUSION; PANDORA_MSK_PIXEL_FILLED_MISMATCH]
   = [MSK_INVALID; MSK_BORDER; MSK_OCCLUSION; MSK_MISMATCH; MSK_FILLED_OCCLUSION; MSK_FILLED_MISMATCH].
 Proof. reflexivity. Qed.
 
+(* ... and the regenerated call structure of PandoraMachine.validation_run (Gen/Callbacks.v,
+   by ast from state_machine.py) is the one [validation_interp_run] models: cross-check of the
+   left map, then under the right_disp_map guard cross-check of the right map against the
+   checked left one and, when interpolated_disparity is configured, interpolation of the left
+   and of the right dataset, each from its own dataset only. *)
+Theorem C14_validation_run_calls :
+  gen_callback CbVal =
+  [ mkSeg [ mkCall FCrossCheck [Ldisp; Rdisp] [Ldisp] ]
+          [ mkCall FCrossCheck [Rdisp; Ldisp] [Rdisp]; mkCall FCfgCond [] [];
+            mkCall FInterpolate [Ldisp] []; mkCall FInterpolate [Rdisp] [] ]
+          true ].
+Proof. reflexivity. Qed.
+
+(* the flag tests of the kernels are the bit tests of the Spec *)
+Theorem C14_flag_tests : forall v,
+  has v MSK_OCCLUSION = Z.testbit v 8 /\ has v MSK_MISMATCH = Z.testbit v 9 /\ okpix v = spec_valid v.
+Proof. intro v. split. apply has_occ. split. apply has_mis. apply okpix_spec. Qed.
+
+(* ---------------------------------------------------------------- model meets Spec *)
+
+(* mc-cnn, any map: occlusions take the first valid pixel to the left (else to the right) of
+   their row, then mismatches the median of the first valid pixels of the 16 half-step
+   directions (filled occlusions count as valid), a pixel with nothing valid in sight is left
+   exactly as it was, flags swap 8->4 / 9->5 bit for bit, border re-marked when offset > 0 *)
+Theorem C14_mc_cnn_meets_spec : forall nr nc off disp mask,
+  mc_cnn_spec nr nc off disp mask (fst (interp McCnn nr nc off disp mask)) (snd (interp McCnn nr nc off disp mask)).
+Proof. exact interp_mc_meets_spec. Qed.
+
+(* sgm, any map on which no pixel carries both bit 8 and bit 9 (C07_xcheck_never_both and
+   C14_never_both_preserved): mismatches touching an occlusion become occlusions (9 -> 8),
+   the others take the median of the first valid pixels of 8 directions; then occlusions take
+   the second lowest |d| of the first valid pixels of 8 directions when at least two exist *)
+Theorem C14_sgm_meets_spec : forall nr nc off disp mask, never_both nr nc mask ->
+  sgm_spec nr nc disp mask (fst (interp Sgm nr nc off disp mask)) (snd (interp Sgm nr nc off disp mask)).
+Proof. exact interp_sgm_meets_spec. Qed.
+
+(* the arithmetic of the kernels (v -= bit; v |= filled bit / v += bit) is a pure bit swap
+   under the invariant "the bit removed is set" (and, for +=, "the bit added is clear") *)
+Theorem C14_flag_arithmetic : forall v,
+  (Z.testbit v 8 = true -> swapped 8 4 v (Z.lor (v - MSK_OCCLUSION) MSK_FILLED_OCCLUSION)) /\
+  (Z.testbit v 9 = true -> swapped 9 5 v (Z.lor (v - MSK_MISMATCH) MSK_FILLED_MISMATCH)) /\
+  (Z.testbit v 9 = true -> Z.testbit v 8 = false -> swapped 9 8 v (v - MSK_MISMATCH + MSK_OCCLUSION)).
+Proof.
+  intro v. split. exact (swap_occ' v). split. exact (swap_mis v). exact (swap_mis_occ v).
+Qed.
+
+(* np.nanmedian / argsort(|.|)[1] as modelled (insertion sort) are the median and the second
+   lowest absolute value of the finite entries *)
+Theorem C14_nanmedian_is_median : forall l, finite l <> [] ->
+  exists m, nanmedian l = Some m /\ is_median (finite l) m.
+Proof. exact nanmedian_is_median. Qed.
+
+Theorem C14_second_lowest : forall nb,
+  match second_lowest_abs nb with
+  | Some x => (2 <= length (finite nb))%nat /\ is_second_lowest_abs (finite nb) x
+  | None => (length (finite nb) < 2)%nat
+  end.
+Proof. exact second_lowest_spec. Qed.
+
+(* ---------------------------------------------------------------- the clauses of the property *)
+Section C14.
+  Variable m : method.                    (* mc-cnn or sgm *)
+  Variables nr nc off : Z.                (* shape, attrs["offset_row_col"] *)
+  Variable disp : Z -> Z -> option Q.
+  Variable mask : Z -> Z -> Z.
+  Hypothesis NB : never_both nr nc mask.  (* as left by the cross-check *)
+
+  Local Notation disp' := (fst (interp m nr nc off disp mask)).
+  Local Notation mask' := (snd (interp m nr nc off disp mask)).
+
+  (* only pixels flagged 8 or 9 can change: every other pixel keeps its disparity and its
+     flags bit for bit (a border pixel re-marked by mc-cnn's mask_border ends with 1, which is
+     what it held after the cross-check: C14_after_cross_check) *)
+  Theorem C14_only_flagged_change : forall r c, 0 <= r < nr -> 0 <= c < nc ->
+    flagged (mask r c) = false ->
+    disp' r c = disp r c /\ mask' r c = if remarked_by m nr nc off r c then 1 else mask r c.
+  Proof. exact (interp_only_flagged_change m nr nc off disp mask NB). Qed.
+
+  (* a flagged pixel: untouched (mask and disparity), or bit 8 replaced by 4 / bit 9 by 5;
+     sgm may turn a mismatch into an occlusion (9 -> 8, disparity untouched) and then fill it
+     (9 -> 4 overall).  [swapped a b] fixes every other bit. *)
+  Theorem C14_flag_swap : forall r c, 0 <= r < nr -> 0 <= c < nc -> remarked_by m nr nc off r c = false ->
+    (Z.testbit (mask r c) 8 = true ->
+       (mask' r c = mask r c /\ disp' r c = disp r c) \/ swapped 8 4 (mask r c) (mask' r c)) /\
+    (Z.testbit (mask r c) 9 = true ->
+       (mask' r c = mask r c /\ disp' r c = disp r c) \/ swapped 9 5 (mask r c) (mask' r c) \/
+       (m = Sgm /\ swapped 9 8 (mask r c) (mask' r c) /\ disp' r c = disp r c) \/
+       (m = Sgm /\ swapped 9 4 (mask r c) (mask' r c))).
+  Proof. exact (interp_flag_swap m nr nc off disp mask NB). Qed.
+
+  (* no bit other than 4, 5, 8, 9 of any pixel ever moves *)
+  Theorem C14_other_bits_untouched : forall r c, 0 <= r < nr -> 0 <= c < nc ->
+    remarked_by m nr nc off r c = false ->
+    forall n, 0 <= n -> n <> 4 -> n <> 5 -> n <> 8 -> n <> 9 ->
+      Z.testbit (mask' r c) n = Z.testbit (mask r c) n.
+  Proof. exact (interp_other_bits m nr nc off disp mask NB). Qed.
+
+  (* a flagged pixel is either filled (ends with neither bit 8 nor 9) or stays flagged
+     invalid with its disparity untouched *)
+  Theorem C14_filled_or_stays_flagged : forall r c, 0 <= r < nr -> 0 <= c < nc ->
+    remarked_by m nr nc off r c = false -> flagged (mask r c) = true ->
+    filled (mask r c) (mask' r c) \/ (flagged (mask' r c) = true /\ disp' r c = disp r c).
+  Proof. exact (interp_filled_or_stays m nr nc off disp mask NB). Qed.
+
+  (* a filled pixel holds a finite disparity between the smallest and the largest valid
+     disparity of the map (valid pixels holding finite disparities, as C04 states) *)
+  Theorem C14_filled_between_min_max_valid : forall lo hi, valid_range nr nc disp mask lo hi ->
+    forall r c, 0 <= r < nr -> 0 <= c < nc -> remarked_by m nr nc off r c = false ->
+    filled (mask r c) (mask' r c) -> exists q, disp' r c = Some q /\ (lo <= q <= hi)%Q.
+  Proof. exact (interp_filled_range m nr nc off disp mask NB). Qed.
+
+  (* a pixel is filled only when the map holds a valid pixel to fill it from (which pixels
+     exactly -- the first valid one of the row, the first valid ones of the 8 / 16 scan
+     directions -- is what the Spec met in C14_mc_cnn_meets_spec / C14_sgm_meets_spec says) *)
+  Theorem C14_filled_is_from_valid : forall r c, 0 <= r < nr -> 0 <= c < nc ->
+    remarked_by m nr nc off r c = false -> filled (mask r c) (mask' r c) ->
+    exists r' c', 0 <= r' < nr /\ 0 <= c' < nc /\ spec_valid (mask r' c') = true.
+  Proof. exact (interp_filled_needs_valid m nr nc off disp mask NB). Qed.
+
+  (* a flagged pixel with no valid pixel in sight stays exactly as it was (flagged invalid, same
+     disparity): every pixel of the map lying on one of the documented scan directions (16
+     half-step directions for mc-cnn -- they include the row, 8 for sgm) is plainly invalid,
+     i.e. neither valid nor an occlusion / mismatch that could itself get filled *)
+  Theorem C14_nothing_in_sight_stays_flagged : forall r c, 0 <= r < nr -> 0 <= c < nc ->
+    remarked_by m nr nc off r c = false ->
+    match m with
+    | McCnn => nothing_in_sight halfstep dirs16_rc nr nc mask r c
+    | Sgm => nothing_in_sight straight dirs8_rc nr nc mask r c
+    end ->
+    disp' r c = disp r c /\ mask' r c = mask r c.
+  Proof. exact (interp_nothing_in_sight m nr nc off disp mask NB). Qed.
+
+  (* a map without any valid pixel: no disparity changes and no flagged pixel loses its flag
+     (the per-pixel statement "nothing valid along the scan directions => untouched" is part
+     of the Spec met in C14_mc_cnn_meets_spec / C14_sgm_meets_spec) *)
+  Theorem C14_unfillable_stays_invalid :
+    (forall r c, 0 <= r < nr -> 0 <= c < nc -> spec_valid (mask r c) = false) ->
+    forall r c, 0 <= r < nr -> 0 <= c < nc ->
+      disp' r c = disp r c /\
+      (remarked_by m nr nc off r c = false -> flagged (mask r c) = true -> flagged (mask' r c) = true).
+  Proof. exact (interp_no_valid_pixel m nr nc off disp mask NB). Qed.
+
+  (* border: mc-cnn re-marks it (bit 0 only) when offset > 0; with either method a pixel that
+     enters with bit 0 only leaves with bit 0 only *)
+  Theorem C14_border_bit0 : forall r c, 0 <= r < nr -> 0 <= c < nc ->
+    (m = McCnn -> 0 < off -> is_border nr nc off r c = true -> mask' r c = 1) /\
+    (mask r c = 1 -> mask' r c = 1).
+  Proof. exact (interp_border_bit0 m nr nc off disp mask NB). Qed.
+
+  (* the -= / |= / += on uint16 never wrap *)
+  Theorem C14_no_wrap : forall r c, 0 <= r < nr -> 0 <= c < nc ->
+    0 <= mask r c < 65536 -> 0 <= mask' r c < 65536.
+  Proof. exact (interp_no_wrap m nr nc off disp mask NB). Qed.
+
+  (* the invariant "never both bits" survives the step (so it holds along repeated validation
+     steps: C14_cross_check_never_both for the cross-check) *)
+  Theorem C14_never_both_preserved : never_both nr nc mask'.
+  Proof. exact (interp_never_both m nr nc off disp mask NB). Qed.
+End C14.
+
+(* the outputs on the map depend only on the values on the map: no theorem above rests on a
+   default returned by an out-of-range read of the (total) model functions *)
+Theorem C14_reads_only_the_map : forall m nr nc off disp mask disp2 mask2,
+  (forall r c, 0 <= r < nr -> 0 <= c < nc -> disp r c = disp2 r c) ->
+  (forall r c, 0 <= r < nr -> 0 <= c < nc -> mask r c = mask2 r c) ->
+  forall r c, 0 <= r < nr -> 0 <= c < nc ->
+    fst (interp m nr nc off disp mask) r c = fst (interp m nr nc off disp2 mask2) r c /\
+    snd (interp m nr nc off disp mask) r c = snd (interp m nr nc off disp2 mask2) r c.
+Proof. exact interp_ext. Qed.
+
+(* ---------------------------------------------------------------- in the state machine *)
+
+Theorem C14_cross_check_never_both : forall thr me other, ds_nc me <= 2 ^ 63 ->
+  never_both (ds_nr me) (ds_nc me) (ds_mask me) ->
+  never_both (ds_nr me) (ds_nc me) (ds_mask (xcheck thr me other)).
+Proof. exact xcheck_never_both_all. Qed.
+
+Theorem C14_validation_run : forall thr m L R,
+  validation_interp_run thr m L R
+  = (interp_ds m (xcheck thr L R), interp_ds m (xcheck thr R (xcheck thr L R))).
+Proof. exact validation_interp_run_eq. Qed.
+
+(* interpolation right after the cross-check (both datasets of C14_validation_run): border
+   pixels end with bit 0 only with BOTH methods; a pixel the cross-check did not flag keeps the
+   disparity it had before the validation step and the flags the cross-check gave it; masks
+   stay uint16 *)
+Theorem C14_after_cross_check : forall thr m me other, ds_nc me <= 2 ^ 63 ->
+  never_both (ds_nr me) (ds_nc me) (ds_mask me) ->
+  forall r c, in_ds me r c ->
+    (0 < ds_offset me -> border_at me r c = true -> ds_mask (interp_ds m (xcheck thr me other)) r c = 1) /\
+    (flagged (ds_mask (xcheck thr me other) r c) = false ->
+       ds_disp (interp_ds m (xcheck thr me other)) r c = ds_disp me r c /\
+       ds_mask (interp_ds m (xcheck thr me other)) r c = ds_mask (xcheck thr me other) r c) /\
+    (0 <= ds_mask me r c < 65536 -> 0 <= ds_mask (interp_ds m (xcheck thr me other)) r c < 65536).
+Proof. exact interp_after_xcheck. Qed.
+
+(* ---------------------------------------------------------------- witnesses *)
+
+Definition grid {A} (d : A) (rows : list (list A)) : Z -> Z -> A :=
+  fun r c => if (r <? 0) || (c <? 0) then d else nth (Z.to_nat c) (nth (Z.to_nat r) rows []) d.
+Definition q (z : Z) : option Q := Some (inject_Z z).
+Definition show {A} (nr nc : Z) (f : Z -> Z -> A) : list (list A) :=
+  map (fun r => map (fun c => f r c) (zrange 0 nc)) (zrange 0 nr).
+
+(* Non-vacuity: a 3x5 map with an occlusion at (1,1) and a mismatch at (1,2) that touches it,
+   an invalid pixel, informational bits; the hypotheses of the theorems hold (never_both,
+   valid_range with lo = 1, hi = 5) and both methods fill both pixels. *)
+Definition ex_disp := grid None [[q 1; q 2; q 3; q 4; q 5]; [q 1; None; q 7; q 4; q 2]; [q 3; q 3; q 3; q 3; q 3]].
+Definition ex_mask := grid 0 [[0; 0; 0; 0; 0]; [0; 256; 512; 0; 0]; [0; 2; 0; 0; 4]].
+
+Example C14_example_hyps : never_both 3 5 ex_mask /\ valid_range 3 5 ex_disp ex_mask 1 5.
+Proof.
+  split.
+  - intros r c Hr Hc.
+    assert (Er : r = 0 \/ r = 1 \/ r = 2) by lia. assert (Ec : c = 0 \/ c = 1 \/ c = 2 \/ c = 3 \/ c = 4) by lia.
+    destruct Er as [->|[->| ->]]; destruct Ec as [->|[->|[->|[->| ->]]]]; reflexivity.
+  - intros r c Hr Hc Hv.
+    assert (Er : r = 0 \/ r = 1 \/ r = 2) by lia. assert (Ec : c = 0 \/ c = 1 \/ c = 2 \/ c = 3 \/ c = 4) by lia.
+    destruct Er as [->|[->| ->]]; destruct Ec as [->|[->|[->|[->| ->]]]];
+      try (vm_compute in Hv; discriminate Hv);
+      (eexists; split; [reflexivity | split; vm_compute; discriminate]).
+Qed.
+
+Example C14_example_outputs :
+  show 3 5 (fst (interp McCnn 3 5 0 ex_disp ex_mask))
+    = [[q 1; q 2; q 3; q 4; q 5]; [q 1; q 1; q 3; q 4; q 2]; [q 3; q 3; q 3; q 3; q 3]] /\
+  show 3 5 (snd (interp McCnn 3 5 0 ex_disp ex_mask)) = [[0; 0; 0; 0; 0]; [0; 16; 32; 0; 0]; [0; 2; 0; 0; 4]] /\
+  show 3 5 (fst (interp Sgm 3 5 0 ex_disp ex_mask))
+    = [[q 1; q 2; q 3; q 4; q 5]; [q 1; q 1; q 2; q 4; q 2]; [q 3; q 3; q 3; q 3; q 3]] /\
+  show 3 5 (snd (interp Sgm 3 5 0 ex_disp ex_mask)) = [[0; 0; 0; 0; 0]; [0; 16; 16; 0; 0]; [0; 2; 0; 0; 4]] /\
+  show 3 5 (snd (interp McCnn 3 5 1 ex_disp ex_mask)) = [[1; 1; 1; 1; 1]; [1; 16; 32; 0; 1]; [1; 1; 1; 1; 1]].
+Proof. vm_compute. repeat split. Qed.
+
+(* D5 (DESIGN.md section 4), corpus cases of the check: 3x3, centre flagged, every other pixel
+   invalid.  The code as found "filled" the centre (NaN, flag 32 / 16; 0 on the 4x1 corpus case below); the repaired code
+   leaves it flagged with its disparity. *)
+Definition d5_disp := grid None [[q (-9999); q (-9999); q (-9999)]; [q (-9999); Some (5 # 4)%Q; q (-9999)];
+                                 [q (-9999); q (-9999); q (-9999)]].
+Definition d5_mask (flag : Z) := grid 0 [[2; 2; 2]; [2; flag; 2]; [2; 2; 2]].
+Example C14_D5_regression :
+  (fst (interp_before McCnn 3 3 0 d5_disp (d5_mask 512)) 1 1, snd (interp_before McCnn 3 3 0 d5_disp (d5_mask 512)) 1 1)
+    = (None, 32) /\
+  (fst (interp_before Sgm 3 3 0 d5_disp (d5_mask 512)) 1 1, snd (interp_before Sgm 3 3 0 d5_disp (d5_mask 512)) 1 1)
+    = (None, 32) /\
+  (fst (interp_before Sgm 3 3 0 d5_disp (d5_mask 256)) 1 1, snd (interp_before Sgm 3 3 0 d5_disp (d5_mask 256)) 1 1)
+    = (None, 16) /\
+  (fst (interp McCnn 3 3 0 d5_disp (d5_mask 512)) 1 1, snd (interp McCnn 3 3 0 d5_disp (d5_mask 512)) 1 1)
+    = (Some (5 # 4)%Q, 512) /\
+  (fst (interp Sgm 3 3 0 d5_disp (d5_mask 512)) 1 1, snd (interp Sgm 3 3 0 d5_disp (d5_mask 512)) 1 1)
+    = (Some (5 # 4)%Q, 512) /\
+  (fst (interp Sgm 3 3 0 d5_disp (d5_mask 256)) 1 1, snd (interp Sgm 3 3 0 d5_disp (d5_mask 256)) 1 1)
+    = (Some (5 # 4)%Q, 256).
+Proof. vm_compute. repeat split. Qed.
+
+(* the hypothesis of C14_nothing_in_sight_stays_flagged holds at the centre of the D5 map *)
+Ltac Zify.zify_post_hook ::= Z.to_euclidean_division_equations.   (* lia on Z.quot *)
+Example C14_D5_nothing_in_sight :
+  nothing_in_sight halfstep dirs16_rc 3 3 (d5_mask 512) 1 1 /\ nothing_in_sight straight dirs8_rc 3 3 (d5_mask 256) 1 1.
+Proof.
+  split; intros d i Hd Hi [H1 H2]; unfold dirs16_rc, dirs8_rc in Hd; cbn [In] in Hd;
+    repeat (destruct Hd as [<-|Hd]; [unfold halfstep, straight in *; cbn [fst snd] in *;
+      assert (i = 1) by lia; subst i; split; reflexivity|]); destruct Hd.
+Qed.
+
+(* mc-cnn mismatch as found: the zero of np.zeros left by a path that neither left the map
+   nor met a valid pixel within max(nrow, ncol) - 1 steps was taken for a disparity
+   (1x4 map [mismatch; invalid; invalid; invalid]: "filled" with 0); repaired: left flagged *)
+Example C14_D5_zero_regression :
+  (fst (interp_before McCnn 1 4 0 (grid None [[q 1; q (-9999); q (-9999); q (-9999)]]) (grid 0 [[512; 2; 2; 2]])) 0 0,
+   snd (interp_before McCnn 1 4 0 (grid None [[q 1; q (-9999); q (-9999); q (-9999)]]) (grid 0 [[512; 2; 2; 2]])) 0 0)
+    = (Some 0%Q, 32) /\
+  (fst (interp McCnn 1 4 0 (grid None [[q 1; q (-9999); q (-9999); q (-9999)]]) (grid 0 [[512; 2; 2; 2]])) 0 0,
+   snd (interp McCnn 1 4 0 (grid None [[q 1; q (-9999); q (-9999); q (-9999)]]) (grid 0 [[512; 2; 2; 2]])) 0 0)
+    = (q 1, 512).
+Proof. vm_compute. split; reflexivity. Qed.
+
+(* refill (fix e4c6aae): a pixel already carrying bit 4 that is flagged occlusion again *)
+Example C14_refill_regression :
+  snd (interp_before McCnn 1 3 0 (grid None [[q 1; q 2; q 3]]) (grid 0 [[0; 272; 0]])) 0 1 = 32 /\
+  snd (interp McCnn 1 3 0 (grid None [[q 1; q 2; q 3]]) (grid 0 [[0; 272; 0]])) 0 1 = 16.
+Proof. vm_compute. split; reflexivity. Qed.
+
+(* why never_both is a hypothesis of the sgm theorems: on a pixel carrying both bits (never
+   produced by the cross-check) `-= 512; += 256` carries into bit 9: 768 -> 512, bit 8 is lost
+   although the Spec says 9 -> 8.  Outside the property's quantifier (masks after cross-checking). *)
+Example C14_sgm_both_bits_carry :
+  snd (interp Sgm 1 1 0 (grid None [[q 1]]) (grid 0 [[768]])) 0 0 = 512 /\
+  ~ swapped 9 8 768 512.
+Proof.
+  split. vm_compute. reflexivity.
+  intro H. specialize (H 8 ltac:(lia)). vm_compute in H. discriminate H.
+Qed.
+
 Print Assumptions C14_constants_match.
+Print Assumptions C14_validation_run_calls.
+Print Assumptions C14_flag_tests.
+Print Assumptions C14_mc_cnn_meets_spec.
+Print Assumptions C14_sgm_meets_spec.
+Print Assumptions C14_flag_arithmetic.
+Print Assumptions C14_nanmedian_is_median.
+Print Assumptions C14_second_lowest.
+Print Assumptions C14_only_flagged_change.
+Print Assumptions C14_flag_swap.
+Print Assumptions C14_other_bits_untouched.
+Print Assumptions C14_filled_or_stays_flagged.
+Print Assumptions C14_filled_between_min_max_valid.
+Print Assumptions C14_filled_is_from_valid.
+Print Assumptions C14_nothing_in_sight_stays_flagged.
+Print Assumptions C14_unfillable_stays_invalid.
+Print Assumptions C14_border_bit0.
+Print Assumptions C14_no_wrap.
+Print Assumptions C14_never_both_preserved.
+Print Assumptions C14_reads_only_the_map.
+Print Assumptions C14_cross_check_never_both.
+Print Assumptions C14_validation_run.
+Print Assumptions C14_after_cross_check.
